@@ -254,7 +254,8 @@ func runC17(c *fw.Ctx) {
 				lisp.READ(text, types.NewCursorFile("scratch-name.lisp"), nil)
 				c.Count("texts_read_before_under_another_module", 1)
 			}
-			ast, err := lisp.READ(text, types.NewCursorFile(module), nil)
+			cursor := types.NewCursorFile(module)
+			ast, err := lisp.READ(text, cursor, nil)
 			if err != nil {
 				c.Violate(fw.Violation{Key: "read-error", What: "generated program rejected by READ: " + err.Error()})
 				return
